@@ -90,7 +90,9 @@ void
 SeqCrashHandler(int sig, siginfo_t *si, void *)
 {
   static std::atomic<int> once{0};
-  if (once.exchange(1) != 0) _exit(4);
+  if (once.exchange(1) != 0) {
+    for (;;) pause();  // another thread is already writing the report and will end the process
+  }
   const bool mcs = strcmp(g_cls_name, "mcs") == 0;
   const bool guard_op = tl_cur_op == kReset || tl_cur_op == kDtor || tl_cur_op == kMoveCtor || tl_cur_op == kMoveAssign;
   const bool composite = (guard_op && tl_cur_kind == kKCG) || tl_cur_op == kPrepare || tl_cur_op == kCgVerify;
